@@ -14,9 +14,9 @@
    Known finding (D8): a batch that makes an asset depend on another asset changed in the same
    batch can be scheduled "dependent first"; the dependent is then stale until the next change.
    [no_late] is exactly the absence of that situation; [C05_late_binding_goes_stale] is the witness. *)
-From Coq Require Import List Arith Bool.
+From Coq Require Import List Arith Bool NArith.
 From AM Require Import Rust.Ast Gen.Deps Gen.HotReloading Proofs.Dfs Proofs.Pass Tie.Graph Tie.Answers Tie.Records Gen.Paths Tie.Paths.
-From AM Require Ref.Sys Proofs.SysGraph.
+From AM Require Ref.Sys Proofs.SysGraph Proofs.SysFresh.
 Import ListNotations.
 
 (* L1 *)
@@ -93,3 +93,28 @@ Theorem C05_a_pass_skips_nothing_that_depends_on_a_change : forall reloader ops 
   In r (Sys.to_reload s) -> SysGraph.has_node (Sys.graph s) r ->
   SysGraph.tdep (Sys.graph s) (Sys.DepAsset k) r -> In k order.
 Proof. exact SysGraph.hot_reload_is_complete. Qed.
+
+(* the base case of "cached values follow the source", for the plain asset types (no nested loads) and
+   no planned fault: what a load makes is a function [p_load] of the source's files alone; a reload of
+   such an asset installs exactly that value (with the reload id bumped) or, if the files yield none,
+   leaves the entry alone; and that value is the one a load of the same key into a cache that does not
+   hold it returns -- the oracle "equal to a fresh load" of the correspondence monitor *)
+Theorem C05_reload_installs_what_the_source_holds : forall fuel s t id n old,
+  SysFresh.plain_asset t = true -> Sys.faults (Sys.src s) = [] ->
+  Sys.g_get (Sys.graph s) (Sys.DepAsset (t, id)) = Some n -> Sys.g_typ n = Some t ->
+  Sys.cache_get s (t, id) = Some old -> Sys.en_dyn old = true ->
+  let s' := fst (Sys.reload_one fuel s (t, id)) in
+  match SysFresh.p_load (Sys.files (Sys.src s)) t id with
+  | Some v => exists e, Sys.cache_get s' (t, id) = Some e /\ Sys.en_val e = v /\ Sys.en_rid e = N.succ (Sys.en_rid old)
+  | None => Sys.cache_get s' (t, id) = Some old
+  end.
+Proof. exact SysFresh.reload_installs_what_the_source_holds. Qed.
+
+Theorem C05_fresh_load_returns_what_the_source_holds : forall f s t id,
+  SysFresh.plain_asset t = true -> Sys.faults (Sys.src s) = [] -> Sys.cache_get s (t, id) = None ->
+  match snd (Sys.load_entry_f (S f) s t id), SysFresh.p_load (Sys.files (Sys.src s)) t id with
+  | Sys.ROk e, Some v => Sys.en_val e = v
+  | Sys.RErr _, None => True
+  | _, _ => False
+  end.
+Proof. exact SysFresh.fresh_load_returns_what_the_source_holds. Qed.
